@@ -5,6 +5,7 @@ import (
 	"go/ast"
 	"go/token"
 	"go/types"
+	"sort"
 	"strings"
 
 	"golang.org/x/tools/go/ssa"
@@ -34,6 +35,8 @@ func checkC05(c *Check, a *Anchors) {
 	c08CopyExhaustive(c, a) // the sources / generates entries of an included task are copies: a copy that drops Negate turns every exclude entry into an include
 	timestampFullResolution(c, a, "timestamp-full-resolution")
 	globFollowsSymlinks(c, a)
+	checksumStatePerLabel(c, a)
+	c04Rollback(c, a)                                              // "an edit is followed by a rebuild": the fingerprint recorded before the commands must not survive ANY failing exit, whatever kind of error a command returned
 	c06FileDefaultsNotImported(c, a, "file-defaults-not-imported") // `method:` of the root Taskfile is the default fingerprint method of every task without its own
 }
 
@@ -1031,4 +1034,62 @@ func globFollowsSymlinks(c *Check, a *Anchors) {
 		}
 	}
 	c.Floor("glob-follows-symlinks", n, 1)
+}
+
+// checksumStatePerLabel: the checksum of a labelled call is kept under the label.
+func checksumStatePerLabel(c *Check, a *Anchors) {
+	c.Rule("checksum-state-per-label", "in the checksum checker the name of the state file is derived from Task.Name() (the label when the task has one), never from the bare Task.Task: the calls of a task with a templated label (`label: 'compile-{{.MOD}}'`) have sources that depend on the call's variables, and under one shared file each call overwrites the other's checksum — unchanged sources then re-run on every invocation")
+	n := 0
+	ord := map[string]int{}
+	// the methods of the checksum checker and the functions of the package they call (not the other checker's methods)
+	seen := map[*FuncBody]bool{}
+	var bodies []*FuncBody
+	for _, m := range c.P.BodiesIn(PkgFingerprint) {
+		if m.Decl == nil || recvOf(m) != "ChecksumChecker" {
+			continue
+		}
+		for _, g := range c.P.groupOf(m, 2) {
+			if g.Decl != nil && !seen[g] && (recvOf(g) == "ChecksumChecker" || recvOf(g) == "" || !strings.HasSuffix(recvOf(g), "Checker")) {
+				seen[g] = true
+				bodies = append(bodies, g)
+			}
+		}
+	}
+	sort.Slice(bodies, func(i, j int) bool { return fnDisplay(bodies[i]) < fnDisplay(bodies[j]) })
+	for _, fb := range bodies {
+		info := fb.Info()
+		for _, call := range callsIn(fb, false) {
+			// a state path is built here: filepath.Join / SmartJoin in this method, or a path helper of the package it calls
+			obj := callee(info, call)
+			fn, _ := obj.(*types.Func)
+			isPath := isFunc(obj, "path/filepath", "", "Join") || isFunc(obj, PkgFilepathext, "", "SmartJoin") || (fn != nil && fn != fb.Obj && statePathHelper(c, fn))
+			if !isPath {
+				continue
+			}
+			usesName, usesBare := false, ""
+			for _, arg := range call.Args {
+				ast.Inspect(arg, func(m ast.Node) bool {
+					switch x := m.(type) {
+					case *ast.CallExpr:
+						if isFunc(callee(info, x), PkgAst, "Task", "Name") {
+							usesName = true
+						}
+					case *ast.SelectorExpr:
+						if fieldSel(info, x, PkgAst, "Task", "Task") {
+							usesBare = exprStr(x)
+						}
+					}
+					return true
+				})
+			}
+			if !usesName && usesBare == "" {
+				continue // a path that does not involve the task (the directory)
+			}
+			n++
+			c.Fn(fb)
+			c.Decide(usesName && usesBare == "", "checksum-state-per-label", ordinal(ord, "state-name@"+fnDisplay(fb)), call.Pos(), "the state file is named after Task.Name()",
+				"the checksum state path is built from `"+usesBare+"` instead of Task.Name(): every call of a labelled task shares one checksum file, so calls with different variables (different sources) overwrite each other's record and none of them is ever up to date")
+		}
+	}
+	c.Floor("checksum-state-per-label", n, 1)
 }
